@@ -577,7 +577,7 @@ func init() {
 func init() {
 	mutant("new-stream-window-read-outside-the-lock", "access-discipline", "conn.go", "		c.sendLck.Lock()\n		pb.window = c.streamWindow\n		c.pending[id] = pb", "		pb.window = c.streamWindow\n		c.sendLck.Lock()\n		c.pending[id] = pb")
 	allMutants = append(allMutants, Mutant{Name: "data-credited-under-the-ctx-again", Rule: "no-blocking-under-ctx-lock", Subs: []Subst{
-		{File: "conn.go", Old: "	defer r.release()\n\n	return c.readStream(fr, r.Response)", New: "	defer r.release()\n\n	if fr.Type() == FrameData {\n		c.creditData(fr)\n	}\n\n	return c.readStream(fr, r.Response)"},
+		{File: "conn.go", Old: "	err := c.readStream(fr, r.Response)\n\n	if c.block.final {", New: "	if fr.Type() == FrameData {\n		c.creditData(fr)\n	}\n\n	err := c.readStream(fr, r.Response)\n\n	if c.block.final {"},
 		{File: "conn.go", Old: "	if fr.Type() == FrameData {\n		c.creditData(fr)\n	}\n\n	if err == nil {", New: "	if err == nil {"},
 	}})
 	mutant("answered-data-never-credited", "data-must-credit", "conn.go", "	if fr.Type() == FrameData {\n		c.creditData(fr)\n	}\n\n	if err == nil {", "	if err == nil {")
@@ -746,4 +746,19 @@ func init() {
 	mutant("idle-callback-send-can-block", "timer-callbacks-idempotent", "serverConn.go", "	select {\n	case sc.closer <- struct{}{}:\n	default:\n	}\n}", "	sc.closer <- struct{}{}\n}")
 	mutant("body-stream-closed-after-release-again", "access-discipline", "conn.go", "		if err == nil && end {\n			c.closeBodyStream(pb)\n		}\n\n		pb.ctx.release()\n", "		pb.ctx.release()\n\n		if err == nil && end {\n			c.closeBodyStream(pb)\n		}\n")
 	mutant("body-stream-field-cleared-again", "access-discipline", "conn.go", "	if pb.stream == nil || !pb.closed.CompareAndSwap(false, true) {\n		return\n	}\n", "	if pb.stream == nil || !pb.closed.CompareAndSwap(false, true) {\n		return\n	}\n\n	pb.stream = nil\n")
+}
+
+func init() {
+	mutant("second-status-wins", "response-status-once", "conn.go", "			if c.block.statusSeen {\n				return c.skipFields(fr, b, errDuplicateStatus)\n			}\n", "")
+	mutant("response-without-status-is-a-200", "response-status-once", "conn.go", "		if !c.block.statusSeen {\n			return errMissingStatus\n		}\n", "")
+	mutant("status-in-trailers-replaces-the-status", "response-blocks-in-order", "conn.go", "			if c.block.trailers {\n				return c.skipFields(fr, b, errPseudoInTrailers)\n			}\n", "")
+	mutant("interim-status-counts-as-final", "response-blocks-in-order", "conn.go", "		if res.StatusCode() >= 200 {\n			c.block.final = true\n		}", "		c.block.final = true")
+	mutant("recycled-ctx-thinks-it-has-headers", "response-blocks-in-order", "client.go", "	ctx.headersDone = false\n", "")
+	mutant("request-never-learns-its-headers-arrived", "response-blocks-in-order", "conn.go", "	if c.block.final {\n		c.block.final = false\n		r.headersDone = true\n	}\n", "")
+	mutant("block-never-told-about-trailers", "response-blocks-in-order", "conn.go", "	if fr.Type() == FrameHeaders {\n		c.block.trailers = r.headersDone\n	}\n", "")
+	mutant("status-mark-survives-the-block", "response-blocks-in-order", "conn.go", "		hb.statusSeen = false\n", "")
+	mutant("ping-timer-re-armed-after-teardown", "teardown-lets-go", "serverConn.go", "	select {\n	case <-sc.writeStop:\n		return\n	case <-sc.writeGone:\n		return\n	default:\n	}\n\n	sc.pingTimer.Reset(sc.pingInterval)", "	sc.pingTimer.Reset(sc.pingInterval)")
+	mutant("held-responses-left-open-at-teardown", "teardown-lets-go", "serverConn.go", "		for _, strm := range strms {\n			sc.dropResponse(strm)\n		}\n", "")
+	mutant("late-handler-leaves-its-body-open", "teardown-lets-go", "serverConn.go", "				_ = ctx.Response.CloseBodyStream()\n			}\n		}()", "			}\n		}()")
+	mutant("dropped-response-under-a-running-handler", "teardown-lets-go", "serverConn.go", "	if strm.handlerRunning || strm.ctx == nil {\n		return\n	}\n\n	sc.closeBodyStream(strm)", "	if strm.ctx == nil {\n		return\n	}\n\n	sc.closeBodyStream(strm)")
 }
